@@ -42,7 +42,16 @@ pub struct Family {
     pub restarts: bool,
     pub evicts: bool,
     pub bursts: bool,
+    /// steps in which a forced flush starts while one ingestion holds the ingestion lock and
+    /// another one may be queued behind it
+    pub races: bool,
     pub factors: &'static [u64],
+    /// table names the storage layer has to sanitise for the file system: names differing only in
+    /// case, with '/' or ' ', with a leading '-' or '.', longer than 189 bytes, non-ASCII - always
+    /// three names that sanitise to the same stem, so that only the hash suffix tells them apart.
+    /// (Six similar strings in _meta_tables.name compress, and compacting such a column is the
+    /// open finding F28: these families run with factors under which _meta_tables is not compacted.)
+    pub odd_tables: bool,
     /// small max_wal_files / max_wal_size_bytes so that background flushes fire
     pub tiny_wal: bool,
     pub max_ops: usize,
@@ -105,8 +114,22 @@ fn cell(r: &mut Rng, kind: u8, hex: bool, compressible: bool, wide: bool, row_id
     }
 }
 
+/// groups of table names with one stem after sanitising
+pub fn odd_table_groups() -> Vec<Vec<String>> {
+    let v = |x: &[&str]| x.iter().map(|s| s.to_string()).collect::<Vec<String>>();
+    vec![
+        v(&["Events", "EVENTS", "events"]),
+        v(&["a/b", "a b", "ab"]),
+        v(&["-lead", ".lead", "lead"]),
+        v(&["t\u{eb}st", "t\u{e9}st", "tst"]),
+        v(&["\u{65e5}\u{672c}", "\u{8a9e}", "--"]),
+        vec!["L".repeat(200), "l".repeat(200), format!("{}{}", "l".repeat(189), "M".repeat(9))],
+    ]
+}
+
 pub struct HistGen<'f> {
     pub fam: &'f Family,
+    pub tables: Vec<String>,
     pub next_id: BTreeMap<String, i64>,
     /// current column set per table (Fixed / VaryAcross)
     pub cur_cols: BTreeMap<String, Vec<(String, u8)>>,
@@ -173,10 +196,10 @@ impl<'f> HistGen<'f> {
     }
 
     fn batch(&mut self, r: &mut Rng) -> Sx {
-        let tables = ["t1", "t2", "t3"];
-        let mut chosen: Vec<&str> = tables.iter().cloned().filter(|_| r.chance(1, 2)).collect();
+        let tables = self.tables.clone();
+        let mut chosen: Vec<&String> = tables.iter().filter(|_| r.chance(1, 2)).collect();
         if chosen.is_empty() {
-            chosen.push(tables[r.below(3) as usize]);
+            chosen.push(&tables[r.below(3) as usize]);
         }
         l(chosen.into_iter().map(|t| self.table_batch(r, t)).collect())
     }
@@ -189,7 +212,18 @@ impl<'f> HistGen<'f> {
 }
 
 pub fn gen_history(r: &mut Rng, fam: &Family) -> (String, Sx) {
-    let factor = *r.pick(fam.factors);
+    let mut factor = *r.pick(fam.factors);
+    let tables: Vec<String> = if fam.odd_tables {
+        let gs = odd_table_groups();
+        gs[r.below(gs.len() as u64) as usize].clone()
+    } else {
+        vec!["t1".into(), "t2".into(), "t3".into()]
+    };
+    if tables[0].len() > 100 {
+        // six catalogue strings sharing a 189-byte stem compress: compacting _meta_tables would run
+        // into the open finding F28, so these names are exercised without compaction
+        factor = 999;
+    }
     let (max_files, max_size) = if fam.tiny_wal {
         (*r.pick(&[0u64, 1, 2, 1000]), *r.pick(&[1u64, 300, 700, 64 << 20]))
     } else {
@@ -208,14 +242,14 @@ pub fn gen_history(r: &mut Rng, fam: &Family) -> (String, Sx) {
         l(vec![a("io_threads"), Sx::int(io)]),
         l(vec![a("flush_threads"), Sx::int(ft)]),
     ];
-    let mut g = HistGen { fam, next_id: BTreeMap::new(), cur_cols: BTreeMap::new(), dirty: BTreeMap::new() };
+    let mut g = HistGen { fam, tables, next_id: BTreeMap::new(), cur_cols: BTreeMap::new(), dirty: BTreeMap::new() };
     let n_ops = r.usize(3, fam.max_ops);
     let mut ops = vec![a("ops")];
     let mut restarts = 0;
     let mut ingests = 0;
     for i in 0..n_ops {
         let k = r.below(100);
-        let op = if i == 0 || k < 45 {
+        let op = if i == 0 || (k < 45 && !(fam.races && i == 1)) {
             ingests += 1;
             l(vec![a("ingest"), g.batch(r)])
         } else if k < 52 && fam.bursts {
@@ -223,6 +257,14 @@ pub fn gen_history(r: &mut Rng, fam: &Family) -> (String, Sx) {
             let bs = (0..n).map(|_| g.batch(r)).collect();
             ingests += n;
             l(vec![a("burst"), l(bs)])
+        } else if (k < 66 || i == 1) && fam.races {
+            let mut v = vec![a("race"), g.batch(r)];
+            if r.chance(2, 3) {
+                v.push(g.batch(r));
+            }
+            ingests += v.len() - 1;
+            g.flushed();
+            l(v)
         } else if k < 75 {
             g.flushed();
             l(vec![a("flush")])
